@@ -47,33 +47,33 @@ type vmWrite struct {
 	file, fn, kind, target string
 }
 
-func exprString(e ast.Expr) string {
+func storeExprString(e ast.Expr) string {
 	switch v := e.(type) {
 	case *ast.Ident:
 		return v.Name
 	case *ast.SelectorExpr:
-		return exprString(v.X) + "." + v.Sel.Name
+		return storeExprString(v.X) + "." + v.Sel.Name
 	case *ast.IndexExpr:
-		return exprString(v.X) + "[" + exprString(v.Index) + "]"
+		return storeExprString(v.X) + "[" + storeExprString(v.Index) + "]"
 	case *ast.SliceExpr:
-		return exprString(v.X) + "[:]"
+		return storeExprString(v.X) + "[:]"
 	case *ast.StarExpr:
-		return "*" + exprString(v.X)
+		return "*" + storeExprString(v.X)
 	case *ast.ParenExpr:
-		return "(" + exprString(v.X) + ")"
+		return "(" + storeExprString(v.X) + ")"
 	case *ast.TypeAssertExpr:
 		if v.Type == nil {
-			return exprString(v.X) + ".(type)"
+			return storeExprString(v.X) + ".(type)"
 		}
-		return exprString(v.X) + ".(" + exprString(v.Type) + ")"
+		return storeExprString(v.X) + ".(" + storeExprString(v.Type) + ")"
 	case *ast.UnaryExpr:
-		return v.Op.String() + exprString(v.X)
+		return v.Op.String() + storeExprString(v.X)
 	case *ast.BinaryExpr:
-		return exprString(v.X) + v.Op.String() + exprString(v.Y)
+		return storeExprString(v.X) + v.Op.String() + storeExprString(v.Y)
 	case *ast.BasicLit:
 		return v.Value
 	case *ast.CallExpr:
-		return exprString(v.Fun) + "(…)"
+		return storeExprString(v.Fun) + "(…)"
 	case *ast.CompositeLit:
 		return "lit"
 	}
@@ -135,7 +135,7 @@ func collectWrites(file string, f *ast.File, fields map[string]bool) []vmWrite {
 		name := fd.Name.Name
 		add := func(kind string, e ast.Expr) {
 			if sharedRooted(e, fields) {
-				out = append(out, vmWrite{file, name, kind, exprString(e)})
+				out = append(out, vmWrite{file, name, kind, storeExprString(e)})
 			}
 		}
 		ast.Inspect(fd.Body, func(n ast.Node) bool {
@@ -182,7 +182,7 @@ func collectWrites(file string, f *ast.File, fields map[string]bool) []vmWrite {
 	return out
 }
 
-func leanStr(s string) string {
+func storeLeanStr(s string) string {
 	s = strings.ReplaceAll(s, "\\", "\\\\")
 	s = strings.ReplaceAll(s, "\"", "\\\"")
 	return "\"" + s + "\""
@@ -243,7 +243,7 @@ func genVmWrites(repo string) (string, error) {
 		if i == len(all)-1 {
 			sep = ""
 		}
-		fmt.Fprintf(&sb, "  ⟨%s, %s, %s, %s⟩%s\n", leanStr(w.file), leanStr(w.fn), leanStr(w.kind), leanStr(w.target), sep)
+		fmt.Fprintf(&sb, "  ⟨%s, %s, %s, %s⟩%s\n", storeLeanStr(w.file), storeLeanStr(w.fn), storeLeanStr(w.kind), storeLeanStr(w.target), sep)
 	}
 	sb.WriteString("]\n\n")
 	sb.WriteString("end UgoVerif.Gen.VmWrites\n")
